@@ -199,14 +199,14 @@ impl CdnBootstrap {
             return Some(path);
         }
 
-        // Try partial matches for product names
-        for (key, path) in &self.paths {
-            if key.contains(product) || product.contains(key) {
-                return Some(path);
-            }
-        }
-
-        None
+        // Try partial matches for product names. Several keys can match: the most
+        // specific (longest) one wins, ties go to the lexicographically smallest, so
+        // that the answer does not depend on the map's iteration order
+        self.paths
+            .iter()
+            .filter(|(key, _)| key.contains(product) || product.contains(key.as_str()))
+            .max_by(|(a, _), (b, _)| a.len().cmp(&b.len()).then_with(|| b.cmp(a)))
+            .map(|(_, path)| path)
     }
 
     /// Get primary CDN server (highest priority HTTPS server)
